@@ -159,6 +159,33 @@ BASE_WZ = '''引入 "errors"
 完毕
 '''
 
+
+# hand-written inputs: comments in otherwise empty constructs, between list elements, literals of every kind
+FIXED_WA = [
+    'func f() {\n\t// only a comment\n}\n\nfunc main {\n\tf()\n}\n',
+    'type E :struct {\n\t// no fields\n}\n\ntype I :interface {\n\t// no methods\n}\n\nfunc main {\n}\n',
+    'func main {\n\tx := 1\n\tswitch x {\n\t// nothing\n\t}\n\tfor {\n\t\t// c\n\t\tbreak\n\t}\n\tif x > 0 {\n\t\t// then\n\t} else {\n\t\t// else\n\t}\n}\n',
+    'func main {\n\ts := []int{\n\t\t1, // one\n\t\t2,\n\t\t// before three\n\t\t3,\n\t}\n\tm := map[string]int{\n\t\t"a": 1, /* a */\n\t\t"b": 2,\n\t}\n\tprintln(len(s), len(m),\n\t\t// arg comment\n\t\ts[0])\n}\n',
+    'const (\n\tA = 0x1F // hex\n\tB = 1e3\n\tC = \'\\n\'\n\tD = `raw // not a comment\n/* nor this */ `\n\tE = "esc \\" \\t \\u4e2d"\n\tF = 07\n\tG = 1.5e-3\n\tH = \'中\'\n)\n\nfunc main {\n\tprintln(A, B, C, D, E, F, G, H)\n}\n',
+    'func main {\n\tx := 3\n\ty := (x + 1) * 2\n\tz := -(-x)\n\tw := !(x > 1 && (y < 2 || z == 0))\n\tv := x<<2 + y&3 | z\n\tp := &x\n\tq := *p * *p\n\tprintln(y, z, w, v, q, (x), ((y)))\n}\n',
+    'func sum(xs: ...int) => int {\n\tn := 0\n\tfor _, x := range xs {\n\t\tn += x\n\t}\n\treturn n\n}\n\nfunc main {\n\ts := []int{1, 2}\n\ts = append(s, s...)\n\tprintln(sum(s...), sum(), sum(1, 2))\n}\n',
+    '// leading file comment\n\n// doc of main\nfunc main { // after brace\n\tprintln(1) // trailing\n\t// last in body\n} // after func\n// end of file comment without newline',
+    'func main {\n\tx := 1;;\n\t;\n\tif (x > 0) { println(x) }\n\tfor (x < 3) { x++ }\n\tswitch (x) {\n\tcase (3): println("t")\n\t}\n}\n',
+]
+FIXED_WZ = [
+    '函数 f():\n\t注: 只有注释\n完毕\n\n函数 主控:\n\tf()\n完毕\n',
+    '函数 主控:\n\tx := 1\n\t循环:\n\t\t注: c\n\t\t跳出\n\t完毕\n\t如果 x > 0:\n\t\t注: then\n\t否则:\n\t\t// else\n\t完毕\n完毕\n',
+    '函数 主控:\n\ts := []整型{\n\t\t1, // one\n\t\t2,\n\t\t// before three\n\t\t3,\n\t}\n\t输出(长度(s),\n\t\t// arg comment\n\t\ts[0])\n完毕\n',
+    '常量:\n\tA = 0x1F // hex\n\tB = 1e3\n\tC = \'\\n\'\n\tD = `raw // not a comment\n注: nor this `\n\tE = "esc \\" \\t \\u4e2d"\n\tH = \'中\'\n完毕\n\n函数 主控:\n\t输出(A, B, C, D, E, H)\n完毕\n',
+    '函数 主控:\n\tx := 3\n\ty := (x + 1) * 2\n\tz := -(-x)\n\tw := !(x > 1 && (y < 2 || z == 0))\n\tv := x<<2 + y&3 | z\n\tp := &x\n\tq := *p * *p\n\t如果 w:\n\t\t输出(y, z, v, q, (x), ((y)))\n\t完毕\n完毕\n',
+    '函数 sum(xs: ...整型) => 整型:\n\tn := 0\n\t循环 _, x := 迭代 xs:\n\t\tn += x\n\t完毕\n\t返回 n\n完毕\n\n函数 主控:\n\ts := []整型{1, 2}\n\ts = 追加(s, s...)\n\t输出(sum(s...), sum(), sum(1, 2))\n完毕\n',
+    '注: 文件开头\n\n注: 主控的文档\n函数 主控: 注: 冒号之后\n\t输出(1) 注: 行尾\n\t注: 最后\n完毕 注: 函数之后\n注: 文件结尾没有换行',
+    '函数 主控:\n\tx := 1;;\n\t;\n\t如果 (x > 0):\n\t\t输出(x)\n\t完毕\n\t循环 (x < 3):\n\t\tx++\n\t完毕\n完毕\n',
+]
+
+# the comment site a fixed input is about (root-cause class of a failure on it)
+FIXED_SITE = {("wz", 1): "around-else"}      # a comment as the only content of the branch before 否则
+
 DECL_KW = {"常量", "全局", "函数", "设定", "结构", "接口", "类型", "引入", "func", "const", "global", "type", "import", "var"}
 ELSE_KW = {"或者", "否则", "else"}
 
@@ -318,7 +345,7 @@ def run(ctx):
                 v = (b[:o] + text.encode() + b[o:]).decode()
                 cases.append(Case(lang, v, "matrix", site_class(prev, t), {"comment": kind, "prev": prev, "next": t, "gap": i}))
     # C. generated programs: redundant syntax, import blocks, untidy layout
-    n_gen = 40 if quick else 600
+    n_gen = 40 if quick else 1200
     gen_cases = []
     for i in range(n_gen):
         seed = rng.getrandbits(32)
@@ -352,6 +379,9 @@ def run(ctx):
         'import "b"\nimport "a"\n\nfunc main {\n}\n',
     ]):
         cases.append(Case("wa", s, "imports", "imports%d" % k))
+    for lang, lst in (("wa", FIXED_WA), ("wz", FIXED_WZ)):
+        for k, s in enumerate(lst):
+            cases.append(Case(lang, s, "fixed", "fixed-%s-%d" % (lang, k), {"site": FIXED_SITE.get((lang, k))}))
 
     evals += evaluate(h, cases)
     parsed = 0
@@ -461,6 +491,8 @@ def run(ctx):
             isolate.append(c)
         elif c.kind == "imports" or any(f[0].startswith("imports") or f[0] == "trees-not-astEq" for f in c.fail):
             report(c, "%s:imports:%s" % (c.lang, import_cause(c)))
+        elif c.kind == "fixed" and c.meta.get("site"):
+            report(c, "%s:comment:%s" % (c.lang, c.meta["site"]))
         elif c.kind == "corpus":
             # corpus file names carry the root-cause key: <lang>__<family>__<cause>--<free text>.<lang>
             report(c, c.key_hint.rsplit(".", 1)[0].split("--")[0].replace("__", ":"))
